@@ -6,10 +6,14 @@
 //!  * `hist`     `GetterFromHistory` over a scripted history that records the times it is asked for and
 //!               returns a value encoding that time, for the four constructors, `set_delta`, `set_time`,
 //!               three kinds of time getter (scripted, `Time` itself, `TimeGetterFromGetter`);
+//!  * `builtin`  the same bookkeeping / following model over every built-in `Settable` implementor:
+//!               `ConstantGetter`, `Terminal` (its `Datum<Command>` and `Datum<State>` impls, one, the other,
+//!               both), `CommandPID` (followed-getter events crossed with its process input);
 //!  * `adapters` `TimeGetterFromGetter`, `NoneGetter`, `Time` as a time getter, `ConstantGetter<_, Time, _>`
 //!               directly, over the whole i64 range (no arithmetic is performed on those stamps).
 //! All comparisons are exact (integers, categories, error values).
 use rrtk::*;
+use rrtk::streams::control::CommandPID;
 use rrtk_mon::*;
 use std::cell::Cell as SCell;
 use std::cell::RefCell;
@@ -1285,6 +1289,568 @@ fn adapters_case(rep: &mut Report, seed: u64, case: u64) {
     }
 }
 
+// ------------------------------------------------------------------------------------------------
+// sub-check `builtin`: the same bookkeeping / following model over every built-in Settable
+// implementor of the crate: ConstantGetter, Terminal (two independent Settable impls on one object:
+// Datum<Command> and Datum<State>), CommandPID (whose update() has a second duty: its process input)
+// ------------------------------------------------------------------------------------------------
+/// scripted output of a followed getter, values as indices into the subject's value pool
+#[derive(Clone, Copy, Debug, PartialEq, Eq, Hash)]
+enum GE {
+    Some(usize),
+    None,
+    Err(u8),
+}
+impl GE {
+    fn cat(&self) -> &'static str {
+        match self {
+            GE::Some(_) => "some",
+            GE::None => "none",
+            GE::Err(0) => "err-FromNone",
+            GE::Err(_) => "err",
+        }
+    }
+}
+/// process input of a CommandPID
+#[derive(Clone, Copy, Debug, PartialEq, Eq, Hash)]
+enum Aux {
+    Present,
+    Absent,
+    Err(u8),
+}
+/// two scripted getters of payload S plus the pool of distinct values they hand out
+struct Getters<S: Clone> {
+    pool: Vec<S>,
+    g: [Src<S>; 2],
+}
+impl<S: Clone + PartialEq + 'static> Getters<S> {
+    fn new(pool: Vec<S>) -> Self {
+        Getters { pool, g: [Src::new(), Src::new()] }
+    }
+    fn out(&self, e: GE) -> Out<S> {
+        match e {
+            GE::Some(i) => Ok(Some(Datum::new(Time(i as i64 * 7 - 3), self.pool[i].clone()))),
+            GE::None => Ok(None),
+            GE::Err(c) => Err(err_code(c)),
+        }
+    }
+    fn script(&self, gi: usize, first: GE, then: Option<GE>) {
+        match then {
+            None => self.g[gi].set(self.out(first)),
+            Some(t) => self.g[gi].set_once(self.out(first), self.out(t)),
+        }
+    }
+    /// pool index of a value (usize::MAX: not a value the harness ever supplied)
+    fn idx(&self, v: &S) -> usize {
+        self.pool.iter().position(|p| p == v).unwrap_or(usize::MAX)
+    }
+}
+/// A built-in settable seen through its public API; facets = its Settable impls.
+trait Subject {
+    fn nfacets(&self) -> usize;
+    fn name(&self, f: usize) -> &'static str;
+    fn set(&mut self, f: usize, vi: usize) -> Result<(), Er>;
+    fn follow(&mut self, f: usize, gi: usize);
+    fn stop(&mut self, f: usize);
+    fn update(&mut self) -> Result<(), Er>;
+    fn upd_follow(&mut self, f: usize) -> Result<(), Er>;
+    fn last(&self, f: usize) -> Option<usize>;
+    fn script(&self, f: usize, gi: usize, first: GE, then: Option<GE>);
+    /// what the object's own getter shows of the stored request, and what it should show given the
+    /// model's last request (None: nothing exposed)
+    fn exposed(&self, f: usize, model_last: Option<usize>) -> Option<(Result<Option<usize>, Er>, Result<Option<usize>, Er>)>;
+    fn aux(&mut self, _a: Aux) {}
+}
+struct SubCg {
+    cg: ConstantGetter<i64, Time, E>,
+    gs: Getters<i64>,
+}
+impl Subject for SubCg {
+    fn nfacets(&self) -> usize {
+        1
+    }
+    fn name(&self, _f: usize) -> &'static str {
+        "constant-getter"
+    }
+    fn set(&mut self, _f: usize, vi: usize) -> Result<(), Er> {
+        self.cg.set(self.gs.pool[vi])
+    }
+    fn follow(&mut self, _f: usize, gi: usize) {
+        self.cg.follow(self.gs.g[gi].dynref())
+    }
+    fn stop(&mut self, _f: usize) {
+        self.cg.stop_following()
+    }
+    fn update(&mut self) -> Result<(), Er> {
+        self.cg.update()
+    }
+    fn upd_follow(&mut self, _f: usize) -> Result<(), Er> {
+        self.cg.update_following_data()
+    }
+    fn last(&self, _f: usize) -> Option<usize> {
+        self.cg.get_last_request().map(|v| self.gs.idx(&v))
+    }
+    fn script(&self, _f: usize, gi: usize, first: GE, then: Option<GE>) {
+        self.gs.script(gi, first, then)
+    }
+    fn exposed(&self, _f: usize, model_last: Option<usize>) -> Option<(Result<Option<usize>, Er>, Result<Option<usize>, Er>)> {
+        // pool[0] is the construction value
+        Some((self.cg.get().map(|o| o.map(|d| self.gs.idx(&d.value))), Ok(Some(model_last.unwrap_or(0)))))
+    }
+}
+/// an unconnected Terminal: facet 0 = its Settable<Datum<Command>>, facet 1 = its Settable<Datum<State>>
+struct SubTerm {
+    t: Terminal<'static, E>,
+    c: Getters<Datum<Command>>,
+    s: Getters<Datum<State>>,
+}
+type TC = Datum<Command>;
+type TS = Datum<State>;
+impl Subject for SubTerm {
+    fn nfacets(&self) -> usize {
+        2
+    }
+    fn name(&self, f: usize) -> &'static str {
+        if f == 0 {
+            "terminal-command"
+        } else {
+            "terminal-state"
+        }
+    }
+    fn set(&mut self, f: usize, vi: usize) -> Result<(), Er> {
+        if f == 0 {
+            <Terminal<'static, E> as Settable<TC, E>>::set(&mut self.t, self.c.pool[vi])
+        } else {
+            <Terminal<'static, E> as Settable<TS, E>>::set(&mut self.t, self.s.pool[vi])
+        }
+    }
+    fn follow(&mut self, f: usize, gi: usize) {
+        if f == 0 {
+            <Terminal<'static, E> as Settable<TC, E>>::follow(&mut self.t, self.c.g[gi].dynref())
+        } else {
+            <Terminal<'static, E> as Settable<TS, E>>::follow(&mut self.t, self.s.g[gi].dynref())
+        }
+    }
+    fn stop(&mut self, f: usize) {
+        if f == 0 {
+            <Terminal<'static, E> as Settable<TC, E>>::stop_following(&mut self.t)
+        } else {
+            <Terminal<'static, E> as Settable<TS, E>>::stop_following(&mut self.t)
+        }
+    }
+    fn update(&mut self) -> Result<(), Er> {
+        self.t.update()
+    }
+    fn upd_follow(&mut self, f: usize) -> Result<(), Er> {
+        if f == 0 {
+            <Terminal<'static, E> as Settable<TC, E>>::update_following_data(&mut self.t)
+        } else {
+            <Terminal<'static, E> as Settable<TS, E>>::update_following_data(&mut self.t)
+        }
+    }
+    fn last(&self, f: usize) -> Option<usize> {
+        if f == 0 {
+            <Terminal<'static, E> as Settable<TC, E>>::get_last_request(&self.t).map(|v| self.c.idx(&v))
+        } else {
+            <Terminal<'static, E> as Settable<TS, E>>::get_last_request(&self.t).map(|v| self.s.idx(&v))
+        }
+    }
+    fn script(&self, f: usize, gi: usize, first: GE, then: Option<GE>) {
+        if f == 0 {
+            self.c.script(gi, first, then)
+        } else {
+            self.s.script(gi, first, then)
+        }
+    }
+    fn exposed(&self, f: usize, model_last: Option<usize>) -> Option<(Result<Option<usize>, Er>, Result<Option<usize>, Er>)> {
+        // an unconnected terminal's Command / State getter shows its own stored request
+        let got = if f == 0 {
+            <Terminal<'static, E> as Getter<Command, E>>::get(&self.t).map(|o| o.map(|d| self.c.idx(&d)))
+        } else {
+            <Terminal<'static, E> as Getter<State, E>>::get(&self.t).map(|o| o.map(|d| self.s.idx(&d)))
+        };
+        Some((got, Ok(model_last)))
+    }
+}
+struct SubPid {
+    pid: CommandPID<Cell<State>, E>,
+    gs: Getters<Command>,
+    input: Src<State>,
+    aux: Aux,
+    t: i64,
+    step: i64,
+}
+impl Subject for SubPid {
+    fn nfacets(&self) -> usize {
+        1
+    }
+    fn name(&self, _f: usize) -> &'static str {
+        "command-pid"
+    }
+    fn set(&mut self, _f: usize, vi: usize) -> Result<(), Er> {
+        self.pid.set(self.gs.pool[vi])
+    }
+    fn follow(&mut self, _f: usize, gi: usize) {
+        self.pid.follow(self.gs.g[gi].dynref())
+    }
+    fn stop(&mut self, _f: usize) {
+        self.pid.stop_following()
+    }
+    fn update(&mut self) -> Result<(), Er> {
+        // a present process reading always carries a strictly later stamp than the previous one
+        if self.aux == Aux::Present {
+            self.t += self.step;
+            self.input.some(self.t, State::new_raw((self.t % 17) as f32, 0.5, -0.25));
+        }
+        self.pid.update()
+    }
+    fn upd_follow(&mut self, _f: usize) -> Result<(), Er> {
+        self.pid.update_following_data()
+    }
+    fn last(&self, _f: usize) -> Option<usize> {
+        self.pid.get_last_request().map(|v| self.gs.idx(&v))
+    }
+    fn script(&self, _f: usize, gi: usize, first: GE, then: Option<GE>) {
+        self.gs.script(gi, first, then)
+    }
+    fn exposed(&self, _f: usize, _model_last: Option<usize>) -> Option<(Result<Option<usize>, Er>, Result<Option<usize>, Er>)> {
+        None
+    }
+    fn aux(&mut self, a: Aux) {
+        self.aux = a;
+        match a {
+            Aux::Present => {}
+            Aux::Absent => self.input.none(),
+            Aux::Err(c) => self.input.err(c),
+        }
+    }
+}
+#[derive(Clone, Debug)]
+enum BOp {
+    Set(usize, usize),
+    Follow(usize, usize),
+    Stop(usize),
+    Update,
+    UpdFollow(usize),
+    Script(usize, usize, GE),
+    ScriptOnce(usize, usize, GE, GE),
+    Aux(Aux),
+}
+impl BOp {
+    fn code(&self) -> u8 {
+        match self {
+            BOp::Set(f, _) => *f as u8,
+            BOp::Follow(f, g) => 2 + (*f * 2 + *g) as u8,
+            BOp::Stop(f) => 6 + *f as u8,
+            BOp::Update => 8,
+            BOp::UpdFollow(f) => 9 + *f as u8,
+            BOp::Script(f, _, GE::Some(_)) => 11 + *f as u8,
+            BOp::Script(f, _, GE::None) => 13 + *f as u8,
+            BOp::Script(f, _, GE::Err(0)) => 15 + *f as u8,
+            BOp::Script(f, _, GE::Err(_)) => 17 + *f as u8,
+            BOp::ScriptOnce(f, ..) => 19 + *f as u8,
+            BOp::Aux(Aux::Present) => 21,
+            BOp::Aux(Aux::Absent) => 22,
+            BOp::Aux(Aux::Err(_)) => 23,
+        }
+    }
+    fn name(&self) -> &'static str {
+        match self {
+            BOp::Set(..) => "set",
+            BOp::Follow(..) => "follow",
+            BOp::Stop(_) => "stop_following",
+            BOp::Update => "update",
+            BOp::UpdFollow(_) => "update_following_data",
+            BOp::Script(..) => "getter-change",
+            BOp::ScriptOnce(..) => "getter-change-read-once",
+            BOp::Aux(_) => "process-input-change",
+        }
+    }
+}
+#[derive(Clone, Debug)]
+struct MFacet {
+    last: Option<usize>,
+    fol: Option<usize>,
+    g: [(GE, Option<GE>); 2],
+}
+impl MFacet {
+    /// the followed getter is polled: its FIRST read decides; returns (first read, was read-once)
+    fn poll(&mut self) -> Option<(GE, bool)> {
+        let gi = self.fol?;
+        let first = self.g[gi].0;
+        let once = match self.g[gi].1.take() {
+            Some(t) => {
+                self.g[gi].0 = t;
+                true
+            }
+            None => false,
+        };
+        Some((first, once))
+    }
+}
+const NPOOL: usize = 6;
+fn gen_ge(rng: &mut Rng) -> GE {
+    match rng.below(10) {
+        0..=5 => GE::Some(rng.usize(NPOOL)),
+        6 | 7 => GE::None,
+        8 => GE::Err(0),
+        _ => GE::Err(*rng.pick(&[1u8, 2])),
+    }
+}
+fn gen_ge_pair(rng: &mut Rng) -> (GE, GE) {
+    let a = rng.usize(NPOOL);
+    let b = (a + 1 + rng.usize(NPOOL - 1)) % NPOOL;
+    let e = GE::Err(*rng.pick(&[0u8, 1, 2]));
+    match rng.below(9) {
+        0..=2 => (GE::Some(a), GE::Some(b)),
+        3 | 4 => (GE::Some(a), GE::None),
+        5 => (GE::Some(a), e),
+        6 | 7 => (GE::None, GE::Some(b)),
+        _ => (e, GE::Some(b)),
+    }
+}
+fn builtin_case(rep: &mut Report, seed: u64, case: u64) {
+    let sub = "builtin";
+    let mut rng = Rng::new(seed, 1504, case);
+    // quota over the subjects, decorrelated from the shard index: 0 constant getter, 1 terminal following
+    // with its command facet only, 2 with its state facet only, 3 with both, 4/5 command PID
+    let kind = ((case / 16 + case) % 6) as u8;
+    let fin = |rng: &mut Rng| rng.moderate(1e4);
+    let pd = |i: usize| [PositionDerivative::Position, PositionDerivative::Velocity, PositionDerivative::Acceleration][i % 3];
+    // pools of NPOOL pairwise distinct values (distinct by construction: the index is part of the value)
+    let cmd_pool: Vec<Command> = (0..NPOOL).map(|i| Command::new(pd(i + rng.usize(3)), (i as f32) * 8.0 + 1.0 + (fin(&mut rng).abs() % 4.0))).collect();
+    let mut subject: Box<dyn Subject> = match kind {
+        0 => {
+            let pool: Vec<i64> = (0..NPOOL as i64).map(|i| i * 1000 + rng.range_i64(0, 999) - 2500).collect();
+            Box::new(SubCg { cg: ConstantGetter::new(Reference::from_rc_ref_cell(rc(Time(free_stamp(&mut rng)))), pool[0]), gs: Getters::new(pool) })
+        }
+        1..=3 => {
+            let c: Vec<TC> = (0..NPOOL).map(|i| Datum::new(Time(free_stamp(&mut rng)), cmd_pool[i])).collect();
+            let s: Vec<TS> = (0..NPOOL).map(|i| Datum::new(Time(free_stamp(&mut rng)), State::new_raw(i as f32 * 8.0 + 1.0, fin(&mut rng), fin(&mut rng)))).collect();
+            Box::new(SubTerm { t: Terminal::new_raw(), c: Getters::new(c), s: Getters::new(s) })
+        }
+        _ => {
+            let input = Src::<State>::new();
+            let k = PIDKValues::new(fin(&mut rng), fin(&mut rng), fin(&mut rng));
+            let kv = PositionDerivativeDependentPIDKValues::new(k, PIDKValues::new(1.0, 0.01, 0.1), k);
+            let initial = Command::new(pd(rng.usize(3)), 1000.0 + fin(&mut rng).abs()); // not in the pool
+            Box::new(SubPid { pid: CommandPID::new(input.typed(), initial, kv), gs: Getters::new(cmd_pool.clone()), input, aux: Aux::Absent, t: rng.range_i64(-1000, 1000), step: rng.range_i64(1, 2_000_000_000) })
+        }
+    };
+    let nf = subject.nfacets();
+    // facets that get follow operations (the other facet of a terminal is only set by hand)
+    let active: Vec<usize> = match kind {
+        1 => vec![0],
+        2 => vec![1],
+        3 => vec![0, 1],
+        _ => vec![0],
+    };
+    let is_pid = kind >= 4;
+    let mut m: Vec<MFacet> = (0..nf).map(|_| MFacet { last: None, fol: None, g: [(GE::None, None), (GE::None, None)] }).collect();
+    let mut aux = Aux::Absent;
+    let n = if rng.chance(0.5) { 40 } else { rng.range_i64(1, 40) as usize };
+    let mut ops: Vec<BOp> = Vec::with_capacity(n);
+    let mut prev = 255u8;
+    let mut pending: Option<usize> = None;
+    for step in 0..=n {
+        let mut opname = "construction";
+        if step > 0 {
+            let f_any = rng.usize(nf);
+            let f_act = *rng.pick(&active);
+            let op = if pending.is_some() && rng.chance(0.75) {
+                if rng.chance(0.8) {
+                    BOp::Update
+                } else {
+                    BOp::UpdFollow(pending.unwrap())
+                }
+            } else {
+                match rng.below(100) {
+                    0..=11 => BOp::Set(f_any, rng.usize(NPOOL)),
+                    12..=25 => BOp::Follow(f_act, rng.usize(2)),
+                    26..=29 => BOp::Stop(f_act),
+                    30..=54 => BOp::Update,
+                    55..=59 => BOp::UpdFollow(f_act),
+                    x @ 60..=84 => {
+                        let gi = match m[f_act].fol {
+                            Some(g) if rng.chance(0.8) => g,
+                            _ => rng.usize(2),
+                        };
+                        if x >= 76 {
+                            let (a, b) = gen_ge_pair(&mut rng);
+                            BOp::ScriptOnce(f_act, gi, a, b)
+                        } else {
+                            BOp::Script(f_act, gi, gen_ge(&mut rng))
+                        }
+                    }
+                    _ if is_pid => BOp::Aux(match rng.below(4) {
+                        0 | 1 => Aux::Present,
+                        2 => Aux::Absent,
+                        _ => Aux::Err(*rng.pick(&[3u8, 4])),
+                    }),
+                    _ => BOp::Update,
+                }
+            };
+            pending = match &op {
+                BOp::ScriptOnce(f, gi, ..) if m[*f].fol == Some(*gi) => Some(*f),
+                _ => None,
+            };
+            ops.push(op.clone());
+            opname = op.name();
+            let ctx = |ops: &Vec<BOp>| format!("subject-kind={} ops={:?} (values are pool indices; Err(0) = FromNone)", kind, ops);
+            match &op {
+                BOp::Set(f, vi) => {
+                    let got = subject.set(*f, *vi);
+                    m[*f].last = Some(*vi);
+                    rep.eval();
+                    rep.tally(&format!("builtin/{}/set", subject.name(*f)));
+                    if got != Ok(()) {
+                        rep.violation(&format!("C15/builtin/result/set/{}", subject.name(*f)), sub, case, format!("set returned {:?}; {}", got, ctx(&ops)));
+                    }
+                }
+                BOp::Follow(f, gi) => {
+                    subject.follow(*f, *gi);
+                    m[*f].fol = Some(*gi);
+                }
+                BOp::Stop(f) => {
+                    subject.stop(*f);
+                    m[*f].fol = None;
+                }
+                BOp::Script(f, gi, e) => {
+                    subject.script(*f, *gi, *e, None);
+                    m[*f].g[*gi] = (*e, None);
+                }
+                BOp::ScriptOnce(f, gi, a, b) => {
+                    subject.script(*f, *gi, *a, Some(*b));
+                    m[*f].g[*gi] = (*a, Some(*b));
+                }
+                BOp::Aux(a) => {
+                    subject.aux(*a);
+                    aux = *a;
+                }
+                BOp::Update | BOp::UpdFollow(_) => {
+                    let whole = matches!(op, BOp::Update);
+                    let polled_facets: Vec<usize> = match &op {
+                        BOp::UpdFollow(f) => vec![*f],
+                        _ => (0..nf).collect(),
+                    };
+                    let olds: Vec<Option<usize>> = m.iter().map(|x| x.last).collect();
+                    let mut polls: Vec<Option<(GE, bool)>> = vec![None; nf];
+                    for f in &polled_facets {
+                        polls[*f] = m[*f].poll();
+                    }
+                    let got = if whole { subject.update() } else { subject.upd_follow(polled_facets[0]) };
+                    // errors this update may return: those of the followed getters, and (whole update of a
+                    // CommandPID) the documented second source, its process input. No order between sources
+                    // is asserted. A followed getter's error must be propagated, so some error must come back.
+                    let fol_errs: Vec<Er> = polls.iter().flatten().filter_map(|(e, _)| if let GE::Err(c) = e { Some(err_code(*c)) } else { None }).collect();
+                    let mut allowed = fol_errs.clone();
+                    if whole && is_pid {
+                        if let Aux::Err(c) = aux {
+                            allowed.push(err_code(c));
+                        }
+                    }
+                    let ok = match got {
+                        Ok(()) => fol_errs.is_empty(),
+                        Err(e) => allowed.contains(&e),
+                    };
+                    rep.eval();
+                    if !ok {
+                        rep.violation(&format!("C15/builtin/result/{}/{}", opname, subject.name(polled_facets[0])), sub, case,
+                            format!("{} returned {:?}; followed getters' first reads {:?}, process input {:?}: errors that may come back {:?}, an error must come back: {}; {}", opname, got, polls, aux, allowed, !fol_errs.is_empty(), ctx(&ops)));
+                    }
+                    let auxs = match aux {
+                        Aux::Present => "present",
+                        Aux::Absent => "absent",
+                        Aux::Err(_) => "err",
+                    };
+                    for f in 0..nf {
+                        let name = subject.name(f);
+                        let real = subject.last(f);
+                        rep.eval();
+                        // the order in which a terminal serves its two followings is not documented: when the
+                        // OTHER facet's getter errs, this facet may or may not have been served
+                        let other_err = (0..nf).any(|o| o != f && matches!(polls[o], Some((GE::Err(_), _))));
+                        match polls[f] {
+                            None => {
+                                if polled_facets.contains(&f) {
+                                    rep.tally(&format!("builtin/{}/not-following", name));
+                                }
+                                if real != olds[f] {
+                                    rep.violation(&format!("C15/builtin/last_request/{}", name), sub, case,
+                                        format!("{}: not following (or not the updated facet) but last request went {:?} -> {:?}; {}", opname, olds[f], real, ctx(&ops)));
+                                }
+                            }
+                            Some((first, once)) => {
+                                rep.tally(&format!("builtin/{}/{}", name, first.cat()));
+                                if once {
+                                    rep.tally(&format!("builtin/{}/read-once", name));
+                                }
+                                if is_pid && whole {
+                                    rep.tally(&format!("builtin/command-pid/{}-while-input-{}", first.cat(), auxs));
+                                }
+                                match first {
+                                    GE::Some(v) if !other_err => {
+                                        m[f].last = Some(v);
+                                        if real != Some(v) {
+                                            rep.violation(&format!("C15/builtin/forwarded/{}", name), sub, case,
+                                                format!("{}: the followed getter's present value {} was not forwarded: last request {:?} -> {:?} (process input {:?}); {}", opname, v, olds[f], real, aux, ctx(&ops)));
+                                        }
+                                    }
+                                    GE::Some(v) => {
+                                        rep.tally("builtin/terminal/other-facet-erred");
+                                        if real != Some(v) && real != olds[f] {
+                                            rep.violation(&format!("C15/builtin/last_request/{}", name), sub, case,
+                                                format!("{}: last request {:?} -> {:?}, expected {:?} or unchanged; {}", opname, olds[f], real, Some(v), ctx(&ops)));
+                                        }
+                                        m[f].last = real;
+                                    }
+                                    _ => {
+                                        if real != olds[f] {
+                                            rep.violation(&format!("C15/builtin/last_request/{}", name), sub, case,
+                                                format!("{}: followed getter gave {:?} but last request went {:?} -> {:?}; {}", opname, first, olds[f], real, ctx(&ops)));
+                                        }
+                                    }
+                                }
+                                // it is unknown whether a read-once getter was polled at all in that case: put it
+                                // (real and model) into its later state
+                                if other_err && once {
+                                    let gi = m[f].fol.unwrap();
+                                    subject.script(f, gi, m[f].g[gi].0, None);
+                                }
+                            }
+                        }
+                    }
+                }
+            }
+            let folkey: Vec<(Option<usize>, Option<GE>)> = m.iter().map(|x| (x.fol, x.fol.map(|g| x.g[g].0))).collect();
+            rep.distinct(("builtin", kind, prev, op.code(), folkey.iter().map(|(f, g)| (f.is_some(), g.map(|g| g.cat()))).collect::<Vec<_>>(), aux));
+            prev = op.code();
+            rep.tally(&format!("builtin_op/{}", opname));
+        }
+        // ---- observations after every operation
+        for f in 0..nf {
+            let name = subject.name(f);
+            rep.eval();
+            let real = subject.last(f);
+            if real != m[f].last {
+                rep.violation(&format!("C15/builtin/last_request/{}", name), sub, case,
+                    format!("after op #{} ({}): get_last_request() = {:?}, model {:?}; subject-kind={} ops={:?}", step, opname, real, m[f].last, kind, ops));
+            }
+            if let Some((got, exp)) = subject.exposed(f, m[f].last) {
+                rep.eval();
+                if got != exp {
+                    rep.violation(&format!("C15/builtin/exposed-get/{}", name), sub, case,
+                        format!("after op #{} ({}): the object's own getter shows {:?}, expected {:?}; subject-kind={} ops={:?}", step, opname, got, exp, kind, ops));
+                }
+            }
+        }
+    }
+    if rep.want_sample(sub) || (kind >= 3 && rep.want_sample("builtin-pid-or-terminal")) {
+        let key = if kind >= 3 { "builtin-pid-or-terminal" } else { sub };
+        rep.sample(key, format!("subject-kind={} ({}) ops={:?} => last requests {:?}", kind, subject.name(0), ops, m.iter().map(|x| x.last).collect::<Vec<_>>()));
+    }
+}
+
 fn main() {
     let args = Args::parse();
     let mut rep = Report::new("C15", &args);
@@ -1303,6 +1869,22 @@ fn main() {
             rep.violation("C15/panic/adapters", "adapters", case, format!("panicked: {}", msg));
         }
     }
+    for case in args.cases("builtin", 12_000, 600_000) {
+        if let Err(msg) = catch(|| builtin_case(&mut rep, args.seed, case)) {
+            rep.violation("C15/panic/builtin", "builtin", case, format!("panicked: {}", msg));
+        }
+    }
+    for name in ["constant-getter", "terminal-command", "terminal-state", "command-pid"] {
+        for c in ["set", "some", "none", "err", "err-FromNone", "read-once", "not-following"] {
+            rep.floor(&format!("builtin/{}/{}", name, c), 100);
+        }
+    }
+    for f in ["some", "none", "err"] {
+        for a in ["present", "absent", "err"] {
+            rep.floor(&format!("builtin/command-pid/{}-while-input-{}", f, a), 100);
+        }
+    }
+    rep.floor("builtin/terminal/other-facet-erred", 30);
     // coverage the oracle depends on (merged over shards)
     for k in [
         "seq_failed_sets",
